@@ -21,6 +21,11 @@ func init() {
 	reg("C09", ruleFileStampReachesEveryNode)
 	reg("C12", ruleFetchImpliesCheckout)
 	reg("C18", ruleFetchImpliesCheckout)
+	// clauses that decided a change of round 11 under another property than the one the change was written for
+	reg("C11", ruleArityCheckedBeforeResolution) // C11-22: arguments given to a non-generic type accepted, files written
+	reg("C04", ruleSpellingErased)               // C04-22: the schema kept the spelling of a generic reference
+	reg("C13", ruleSymbolTableWritesScoped)      // C13-22: type parameters leaked into the shared table
+	reg("C08", ruleWriteIfNeeded)                // C08-22: a stale generated file next to regenerated ones
 }
 
 // ---------------------------------------------------------------------------------------------------------------
